@@ -271,13 +271,36 @@ def _hp_mutation(ck: Check, repo: Repo) -> None:
                   "another agent's (or its own stale) value" if loads else "no load of the individual's value before mutate()"),
           construct="base value of the mutated hyper-parameter")
     # ---- C06.3 write back
-    newv = [k for k, _ in cfg.defs_at(mn)]
     sets = [c for c in calls_in(fn.node) if call_name(c) == "setattr" and len(c.args) == 3 and dotted(c.args[0]) == "individual"]
+
+    def _stands_for(e: ast.AST, at: Optional[Node], is_origin, depth: int = 0) -> bool:
+        """e is the origin expression itself, or a local whose EVERY reaching definition binds it to (a local that stands for) the origin:
+        a value handed over directly and one handed over through single-purpose temporaries are the same value."""
+        if is_origin(e, at):
+            return True
+        if not isinstance(e, ast.Name) or at is None or depth > 4:
+            return False
+        defs = cfg.defs_reaching(at, e.id)
+        if not defs:
+            return False
+        for d in defs:
+            v = cfg.value_of_def(d, e.id) if d.kind != "entry" else None
+            if v is None or not _stands_for(v, d, is_origin, depth + 1):
+                return False
+        return True
+
+    def _is_mutated(e: ast.AST, at: Optional[Node]) -> bool:
+        return e is muts[0]
+
+    def _is_sampled_name(e: ast.AST, at: Optional[Node]) -> bool:
+        # the first name of the unpacked sample, as bound by the sampling statement (and by nothing else) where it is read
+        return isinstance(e, ast.Name) and e.id == name_v and at is not None and [d.id for d in cfg.defs_reaching(at, name_v)] == [sn.id]
     ok = False
     for c in sets:
         n = cfg.node_of(c)
-        ok = dotted(c.args[1]) == name_v and isinstance(c.args[2], ast.Name) and newv and c.args[2].id == newv[0] \
-            and mn in cfg.defs_reaching(n, c.args[2].id) and cfg.dominates(mn, n) and cfg.postdominates(n, mn)
+        # (the call may be the third argument itself: then n is the node of mutate(), which trivially dominates / post-dominates itself)
+        ok = n is not None and _stands_for(c.args[1], n, _is_sampled_name) and _stands_for(c.args[2], n, _is_mutated) \
+            and (n is mn or (cfg.dominates(mn, n) and cfg.postdominates(n, mn)))
     ck.ob("C06.3", fn, sets[0] if sets else fn.node, ok and len(sets) == 1, "the value returned by mutate() is written to the sampled attribute of the individual, on every path",
           detail=f"setattr calls: {[short(c, 70) for c in sets]}")
     labels = [n for n in cfg.live_nodes() if n.kind == "stmt" and isinstance(n.ast, ast.Assign) and dotted(n.ast.targets[0]) == "individual.mut"]
@@ -490,33 +513,39 @@ def _reinit_opt(ck: Check, repo: Repo) -> None:
         ok = isinstance(lr, ast.Call) and call_name(lr) == "getattr" and dotted(lr.args[0]) == "individual" and ast.unparse(lr.args[1]).endswith(".lr_name")
         ck.ob("C06.5", fn, c, ok, "the new optimizer's learning rate is read from the individual's current attribute (getattr(individual, <lr name>))",
               detail=f"lr={short(lr, 70)}")
-        nets = get_kw(c, "networks", 1)
-        okn = False
-        if isinstance(nets, ast.Name) and inner:
-            for a in ast.walk(inner[0]):
-                if isinstance(a, ast.Assign) and dotted(a.targets[0]) == nets.id:
-                    src = ast.unparse(a.value)
-                    okn = "getattr(individual" in src
-                    if not okn:
-                        break
-        ck.ob("C06.5", fn, c, okn, "the new optimizer is built over the individual's current networks (getattr(individual, <network name>))")
+        # (over which networks the new optimizer is built is decided by the form-independent C02.2 obligation, taken over below)
         for kw in ("optimizer_kwargs", "network_names", "lr_name", "multiagent"):
             v = get_kw(c, kw)
             ck.ob("C06.5", fn, c, v is not None and dotted(v).split(".")[-1] == kw, f"setting `{kw}` is carried over from the optimizer being replaced",
                   construct=f"{kw}={short(v, 50)}")
-    sets = [c for c in calls_in(fn.node, nested=True) if call_name(c) == "setattr" and dotted(c.args[0]) == "individual"]
-    # roles: the registry entry is the first parameter of the helper that contains the setattr; the new optimizer is the
-    # name every OptimizerWrapper(...) construction is assigned to
-    entry = [f.args.args[0].arg for f in inner if f.args.args and sets and any(x is sets[0] for x in ast.walk(f))]
-    new_opt = {t.id for a in ast.walk(fn.node) if isinstance(a, ast.Assign) and any(a.value is c for c in ows) for t in a.targets if isinstance(t, ast.Name)}
-    ck.ob("C06.5", fn, sets[0] if sets else fn.node, len(sets) == 1 and len(sets[0].args) == 3 and bool(entry) and dotted(sets[0].args[1]) == f"{entry[0]}.name"
-          and len(new_opt) == 1 and isinstance(sets[0].args[2], ast.Name) and sets[0].args[2].id in new_opt
-          and _only_assigned_from(fn.node, sets[0].args[2].id, ows),
-          "the new optimizer replaces the attribute named in the registry entry")
+    # networks and store key: the C02.2 obligations on the same function (def-use based, indifferent to closure / loop / temporaries), shared
+    from dataclasses import replace as _replace
+    from . import c02 as _c02
+    sub2 = Check("C02", ck.tier, ck.repo_root)
+    sub2.known = []
+    sub2.rule("C02.2", "shared")
+    _c02._reinit_opt_provenance(sub2, repo)
+    for o in sub2.obs:
+        if o.rule == "C02.2" and ("networks of the new optimizer" in o.what or "stored under the optimizer's registered attribute name" in o.what):
+            ck.obs.append(_replace(o, rule="C06.5"))
     # all optimizers when none is given
-    src = ast.unparse(fn.node)
-    ck.ob("C06.5", fn, fn.node, has(src, 'for $opt_config in $optimizer_configs:\n    $_reinit_individual($opt_config)') or has(src, 'for $opt_config in $individual.registry.optimizers:\n    ...'),
-          "without a selection every registered optimizer is re-created", construct="reinit_opt: loop over all optimizers")
+    # without a selection every registered optimizer is re-created: some loop runs over (a value that can be) `<individual>.registry.optimizers`, unfiltered
+    fcfg = CFG(fn.node)
+    over_all = False
+    for L_ in [n for n in ast.walk(fn.node) if isinstance(n, ast.For)]:
+        srcs = [L_.iter]
+        if isinstance(L_.iter, ast.Name):
+            node = next((n_ for n_ in fcfg.live_nodes() if n_.kind == "for" and n_.ast is L_), None)
+            srcs = [fcfg.value_of_def(d, L_.iter.id) for d in fcfg.defs_reaching(node, L_.iter.id)] if node is not None else []
+        flat = []
+        for v in srcs:
+            if isinstance(v, ast.IfExp):
+                flat += [v.body, v.orelse]
+            elif v is not None:
+                flat.append(v)
+        if any(isinstance(v, ast.Attribute) and v.attr == "optimizers" and "registry" in ast.unparse(v) for v in flat):
+            over_all = True
+    ck.ob("C06.5", fn, fn.node, over_all, "without a selection every registered optimizer is re-created", construct="reinit_opt: loop over all optimizers")
     ri = repo.fn(BASE, "EvolvableAlgorithm._registry_init")
     src = ast.unparse(ri.node)
     ck.ob("C06.5", ri, ri.node, has(src, 'for $hp in self.registry.hp_config:\n    ...') and has(src, 'if not hasattr(self, $hp):\n    ...') and has(src, 'raise AttributeError'),
@@ -558,6 +587,17 @@ VARIANTS = [
     # roles derived by def-use instead of by the spelling of locals
     ("config-not-the-individuals", _MF, "        hp_config = individual.registry.hp_config\n        if not hp_config:", "        hp_config = self.registry.hp_config\n        if not hp_config:", "fire", "C06.3"),
     ("store-old-wrapper", _MF, "setattr(individual, config.name, offspring_opt)", "setattr(individual, config.name, opt)", "fire", "C06.5"),
+    # the mutated value reaches setattr directly or through temporaries (C06.3 follows every reaching definition)
+    ("mutated-value-passed-directly-ok", _MF, "        new_value = mutate_param.mutate()\n\n        setattr(individual, mutate_attr, new_value)\n",
+     "        setattr(individual, mutate_attr, mutate_param.mutate())\n", "silent", None),
+    ("mutated-value-through-two-temporaries-ok", _MF, "        new_value = mutate_param.mutate()\n\n        setattr(individual, mutate_attr, new_value)\n",
+     "        new_value = mutate_param.mutate()\n        written, attr = new_value, mutate_attr\n        setattr(individual, attr, written)\n", "silent", None),
+    ("mutated-value-direct-to-other-attribute", _MF, "        new_value = mutate_param.mutate()\n\n        setattr(individual, mutate_attr, new_value)\n",
+     "        setattr(individual, hp_config.names()[0], mutate_param.mutate())\n", "fire", "C06.3"),
+    ("mutated-value-overwritten-on-one-path", _MF, "        new_value = mutate_param.mutate()\n\n        setattr(individual, mutate_attr, new_value)\n",
+     "        new_value = mutate_param.mutate()\n        if mutate_attr in individual.get_lr_names():\n            new_value = getattr(individual, mutate_attr)\n        setattr(individual, mutate_attr, new_value)\n", "fire", "C06.3"),
+    ("mutated-value-direct-but-conditional", _MF, "        new_value = mutate_param.mutate()\n\n        setattr(individual, mutate_attr, new_value)\n",
+     "        new_value = mutate_param.mutate()\n        if new_value:\n            setattr(individual, mutate_attr, new_value)\n", "fire", "C06.3"),
     ("optimizers-of-other-registry", _MF, "            optimizer_configs = individual.registry.optimizers\n            for opt_config in optimizer_configs:\n                if mutate_attr",
      "            optimizer_configs = individual.registry.groups\n            for opt_config in optimizer_configs:\n                if mutate_attr", "fire", "C06.4"),
 ]
